@@ -133,59 +133,56 @@ def run(prog: Program, rep, thorough: bool) -> None:
         except Undecided as exc:
             raise AnalysisError(f'check_zero_crossing: {exc}') from exc
         problems = []
-        for path, leaf in leaves(tree):
-            h = leaf.state.heap[flt.oid]
-            cur, sz = h.get('current_flag'), h.get('seen_zero')
-            if not (isinstance(cur, Scalar) and cur.rf.is_const() and isinstance(sz, Scalar) and sz.rf.is_const()):
-                problems.append(f'flags not concrete: {cur!r} {sz!r}')
-                continue
-            cur, sz = int(cur.rf.const_value()), int(sz.rf.const_value())
-            beyond = None
-            above = None
-            for t, pol in path:
-                if t.kind == 'pos' and t.rf.equals(x):
-                    beyond = pol
-                elif t.kind == 'nonneg' and t.rf.equals(y - ref):
-                    above = pol
-                elif t.kind == 'pos' and t.rf.equals(ref - y):
-                    above = not pol
-                elif t.kind == 'pos' and t.rf.equals(y - ref):
-                    above = 'strict' if pol else 'notstrict'
-                elif t.kind == 'nonneg' and t.rf.equals(ref - y):
-                    above = 'notstrict' if pol else 'strict'
-                else:
-                    problems.append(f'depends on {t!r}')
-            want_cur, want_sz = 0, seen
-            if beyond:
-                if not seen & UP:
-                    if above is True:
-                        want_cur, want_sz = UP, seen | UP
-                    elif above not in (False, None):
-                        problems.append('zero-up test is not `y >= x tan(look)`')
-                        continue
-                    elif above is None:
-                        problems.append('zero-up not tested against the sight line')
-                        continue
-                elif not seen & DOWN:
-                    if above is False:
-                        want_cur, want_sz = DOWN, seen | DOWN
-                    elif above not in (True, None):
-                        problems.append('zero-down test is not `y < x tan(look)`')
-                        continue
-                    elif above is None:
-                        problems.append('zero-down not tested against the sight line')
-                        continue
-            if (cur, sz) == (want_cur | init, want_sz):
-                continue
-            if init and (cur, sz) == (want_cur, want_sz):
-                problems.append(f'the row flags already raised for the sample ({init}) are overwritten instead of or-ed: a '
-                                f'range / time / Mach row due at the same sample is lost')
-                continue
-            if (cur, sz) != (want_cur | init, want_sz):
+        # the case a path belongs to is found by evaluating its guards at one point of every ordering (at / before /
+        # beyond the muzzle; above, on, below the sight line x tan(look)): any spelling of the tests is read
+        import math as _m
+        from .c16 import reachable_leaves
+        for t_ in {t for pth, _lf in leaves(tree) for t, _pol in pth}:
+            if t_.rf is not None and not t_.rf.symbols() <= {'x', 'y', 'L'}:
+                problems.append(f'depends on {t_!r}')
+            elif t_.rf is not None and 'y' in t_.rf.symbols() and not (t_.rf.equals(y - ref) or t_.rf.equals(ref - y)):
+                problems.append(f'a crossing test compares {t_!r}: not the height against the sight line x tan(look) exactly')
+            elif t_.rf is not None and 'y' not in t_.rf.symbols() and not (t_.rf.equals(x) or t_.rf.equals(-x)):
+                problems.append(f'depends on {t_!r}')
+        ref5 = 2.0 * _m.tan(0.5)
+        points = [('before the muzzle', False, True, {'x': -1.0, 'y': 5.0, 'L': 0.5}),
+                  ('at the muzzle', False, False, {'x': 0.0, 'y': -5.0, 'L': 0.5}),
+                  ('above the sight line', True, True, {'x': 2.0, 'y': ref5 + 1.0, 'L': 0.5}),
+                  ('on the sight line', True, True, {'x': 2.0, 'y': 0.0, 'L': 0.0}),
+                  ('below the sight line', True, False, {'x': 2.0, 'y': ref5 - 1.0, 'L': 0.5}),
+                  ('below a falling sight line', True, False, {'x': 2.0, 'y': -2.0 * _m.tan(0.5) - 1.0, 'L': -0.5}),
+                  ('above a falling sight line (y < 0)', True, True, {'x': 2.0, 'y': -2.0 * _m.tan(0.5) + 0.5, 'L': -0.5})]
+        for what, beyond, above, env_ in points:
+            for leaf in reachable_leaves(tree, env_):
+                if leaf.kind == 'raise':
+                    problems.append(f'{what}: raises')
+                    continue
+                h = leaf.state.heap[flt.oid]
+                cur, sz = h.get('current_flag'), h.get('seen_zero')
+                if not (isinstance(cur, Scalar) and cur.rf.is_const() and isinstance(sz, Scalar) and sz.rf.is_const()):
+                    problems.append(f'flags not concrete: {cur!r} {sz!r}')
+                    continue
+                cur, sz = int(cur.rf.const_value()), int(sz.rf.const_value())
+                want_cur, want_sz = 0, seen
+                if beyond:
+                    if not seen & UP:
+                        if above:
+                            want_cur, want_sz = UP, seen | UP
+                    elif not seen & DOWN:
+                        if not above:
+                            want_cur, want_sz = DOWN, seen | DOWN
+                if (cur, sz) == (want_cur | init, want_sz):
+                    continue
+                if init and (cur, sz) == (want_cur, want_sz):
+                    problems.append(f'the row flags already raised for the sample ({init}) are overwritten instead of or-ed: a '
+                                    f'range / time / Mach row due at the same sample is lost')
+                    continue
+
                 def nm(v):
                     return '|'.join(k for k, b in (('ZERO_UP', UP), ('ZERO_DOWN', DOWN)) if v & b) or 'NONE'
-                problems.append(f'{"beyond" if beyond else "at/before"} the muzzle, {"above" if above else "below"} the '
-                                f'sight line: raises {nm(cur)} and leaves latches {nm(sz)}; expected {nm(want_cur)} / {nm(want_sz)}')
+                problems.append(f'{what}: raises {nm(cur & 3)} and leaves latches {nm(sz)}; expected {nm(want_cur)} / {nm(want_sz)}'
+                                + (' (the crossing tests are y >= x tan(look) for zero-up and y < x tan(look) for zero-down)'
+                                   if 'sight line' in what else ''))
         label = {0: 'no latch set', 1: 'zero-up latched', 2: 'zero-down pre-marked', 3: 'both latched'}[seen]
         if problems:
             rep.fail('C15.R1', tc.path, czc.node.lineno, czc.qualname, f'latches={seen}',
@@ -392,6 +389,31 @@ VARIANTS = [
     Variant('all-misses-mach', 'break', [(TDF, 'ALL: Final[int] = RANGE | ZERO_UP | ZERO_DOWN | MACH | APEX', 'ALL: Final[int] = RANGE | ZERO_UP | ZERO_DOWN | APEX'), (TDF, "    31: 'ALL',", "    27: 'ALL',")], 'C15.R3'),
     Variant('mach-flag-assigned-not-ored', 'break', [(TCF, '            self.current_flag |= TrajFlag.MACH\n', '            self.current_flag = TrajFlag.MACH\n')], 'C15.R2', 'seeded change C03/5: the time row due at the sonic crossing is lost'),
     Variant('zero-up-flag-assigned-not-ored', 'break', [(TCF, '                    self.current_flag |= TrajFlag.ZERO_UP\n', '                    self.current_flag = TrajFlag.ZERO_UP\n')], 'C15.R1'),
+    Variant('twin-zero-crossing-early-return', 'twin', [(TCF, '''        if range_vector.x > 0:
+            # Zero reference line is the sight line defined by look_angle
+            reference_height = range_vector.x * math.tan(self.look_angle)
+            # If we haven't seen ZERO_UP, we look for that first
+            if not (self.seen_zero & TrajFlag.ZERO_UP):  # pylint: disable=superfluous-parens
+                if range_vector.y >= reference_height:
+                    self.current_flag |= TrajFlag.ZERO_UP
+                    self.seen_zero |= TrajFlag.ZERO_UP
+            # We've crossed above sight line; now look for crossing back through it
+            elif not (self.seen_zero & TrajFlag.ZERO_DOWN):  # pylint: disable=superfluous-parens
+                if range_vector.y < reference_height:
+                    self.current_flag |= TrajFlag.ZERO_DOWN
+                    self.seen_zero |= TrajFlag.ZERO_DOWN
+''', '''        if range_vector.x <= 0:
+            return
+        reference_height = range_vector.x * math.tan(self.look_angle)
+        above = range_vector.y >= reference_height
+        if not self.seen_zero & TrajFlag.ZERO_UP:
+            if above:
+                self.current_flag |= TrajFlag.ZERO_UP
+                self.seen_zero |= TrajFlag.ZERO_UP
+        elif not self.seen_zero & TrajFlag.ZERO_DOWN and not above:
+            self.current_flag |= TrajFlag.ZERO_DOWN
+            self.seen_zero |= TrajFlag.ZERO_DOWN
+''')], None, 'early return and a named boolean: same transitions'),
     Variant('twin-flags-one-statement', 'twin', [(TCF, '                    self.current_flag |= TrajFlag.ZERO_UP\n                    self.seen_zero |= TrajFlag.ZERO_UP\n', '                    self.seen_zero |= TrajFlag.ZERO_UP\n                    self.current_flag = self.current_flag | TrajFlag.ZERO_UP\n')], None),
     Variant('twin-mach-check-rewritten', 'twin', [(TCF, 'if self.previous_v_mach > 1 >= current_v_mach:', 'if current_v_mach <= 1 and self.previous_v_mach > 1:')], None),
 ]
